@@ -208,7 +208,9 @@ pub fn cmd(_args: &[String]) {
             // value serialisation (C12): the program's value through SeSeed / DeSeed, into this VM and a fresh one, with
             // a collection between loading and using it
             "valueser" => {
-                let vm = entry.0.clone();
+                // a VM of its own: what earlier programs left in a long-lived VM is not part of this round trip
+                let vm = new_vm(&s);
+                crate::host::install(&vm);
                 match catch_unwind(AssertUnwindSafe(|| crate::bytecode::value_roundtrip(&vm, src, &s))) {
                     Ok(v) => ("ok".to_string(), v.to_string(), String::new(), String::new()),
                     Err(p) => ("panic".to_string(), String::new(), String::new(), panic_message(&p)),
